@@ -52,7 +52,7 @@ THEOREMS = [
     'Px.Intercept.C11_chain_asks', 'Px.Intercept.C11_order', 'Px.Intercept.C11_inner_requests',
     'Px.Intercept.C11_san_prefixes', 'Px.Intercept.C11_san_ip_literal', 'Px.Intercept.C11_san_dns_name',
     'Px.Intercept.C11_ip_literal_examples', 'Px.Intercept.C11_ipv6_literal_verified_bare',
-    'Px.Intercept.C11_property_partial',
+    'Px.Intercept.C11_record_fragment_stutter', 'Px.Intercept.C11_property_partial',
 ]
 NO_FORK = False
 logging.disable(logging.CRITICAL)
@@ -231,13 +231,83 @@ def _read_http(sock, first=b''):
     return head + b'\r\n\r\n' + body
 
 
+SPLIT_PAUSE = 0.25       # seconds between the two TCP segments of a split TLS record
+
+
+class BioTls:
+    """TLS endpoint over a plain socket through ssl.MemoryBIO, so that the harness decides how the
+    cipher text is cut into TCP segments: `sendall(data, split=True)` writes the record(s) carrying
+    `data` in two pieces with a pause, cutting a record in the middle."""
+
+    def __init__(self, sock, ctx, **kw):
+        self.sock = sock
+        self.inc, self.out = ssl.MemoryBIO(), ssl.MemoryBIO()
+        self.obj = ctx.wrap_bio(self.inc, self.out, **kw)
+
+    def _flush(self):
+        data = self.out.read()
+        if data:
+            self.sock.sendall(data)
+
+    def _fill(self):
+        data = self.sock.recv(65536)
+        if not data:
+            self.inc.write_eof()
+            return False
+        self.inc.write(data)
+        return True
+
+    def handshake(self):
+        while True:
+            try:
+                self.obj.do_handshake()
+                self._flush()
+                return
+            except ssl.SSLWantReadError:
+                self._flush()
+                if not self._fill():
+                    raise ssl.SSLEOFError('EOF during handshake')
+            except ssl.SSLError:
+                self._flush()       # the alert, if any
+                raise
+
+    def sendall(self, data, split=False):
+        self.obj.write(data)
+        ct = self.out.read()
+        if split and len(ct) > 10:
+            k = min(len(ct) - 3, max(3, len(ct) // 2))
+            self.sock.sendall(ct[:k])
+            time.sleep(SPLIT_PAUSE)
+            self.sock.sendall(ct[k:])
+        else:
+            self.sock.sendall(ct)
+
+    def recv(self, n):
+        while True:
+            try:
+                return self.obj.read(n)
+            except ssl.SSLWantReadError:
+                if not self._fill():
+                    return b''
+            except ssl.SSLZeroReturnError:
+                return b''
+
+    def settimeout(self, t):
+        self.sock.settimeout(t)
+
+    def close(self):
+        pass
+
+
 class Origin(threading.Thread):
     """TLS origin on one end of a socketpair: handshake with the given leaf, then (on success)
     read one request, answer `response`, close.  In `raw` mode (opt-out expected) behaves the same:
     whoever handshakes with it is the party it talks to."""
 
-    def __init__(self, sock, certfile, keyfile, response, extra_raw=b''):
+    def __init__(self, sock, certfile, keyfile, response, extra_raw=b'', nreq=1, splits=None):
         super().__init__(daemon=True)
+        self.nreq = nreq
+        self.splits = splits       # None: ordinary SSLSocket; list: MemoryBIO endpoint, these responses are split
         self.sock = sock
         self.certfile, self.keyfile = certfile, keyfile
         self.response = response
@@ -269,7 +339,11 @@ class Origin(threading.Thread):
                 self.sni = name
             ctx.sni_callback = on_sni
             try:
-                tls = ctx.wrap_socket(s, server_side=True)
+                if self.splits is None:
+                    tls = ctx.wrap_socket(s, server_side=True)
+                else:
+                    tls = BioTls(s, ctx, server_side=True)
+                    tls.handshake()
             except (ssl.SSLError, OSError) as e:
                 self.handshake = type(e).__name__
                 if self.extra_raw:
@@ -281,9 +355,15 @@ class Origin(threading.Thread):
             self.handshake = 'ok'
             s = tls
             try:
-                self.received = _read_http(s)
-                if self.received:
-                    s.sendall(self.response)
+                for i in range(self.nreq):
+                    req = _read_http(s)
+                    if not req:
+                        break
+                    self.received += req
+                    if self.splits is None:
+                        s.sendall(self.response)
+                    else:
+                        s.sendall(self.response, split=i in self.splits)
                 # anything else the peer sends until it closes
                 s.settimeout(1.0)
                 try:
@@ -311,14 +391,15 @@ class Client(threading.Thread):
     """verifying TLS client: CONNECT, read the acknowledgement, handshake (trusting only the
     throw-away CA, checking the name `host`), send `request` cut at `cuts`, read the response."""
 
-    def __init__(self, sock, connect_bytes, host, cafile, request, cuts, mode='verify'):
+    def __init__(self, sock, connect_bytes, host, cafile, requests, cuts, mode='verify', splitc=None):
         super().__init__(daemon=True)
         self.mode = mode
+        self.splitc = splitc       # None: ordinary SSLSocket; list: MemoryBIO endpoint, these requests' records are split
         self.sock = sock
         self.connect_bytes = connect_bytes
         self.host = host
         self.cafile = cafile
-        self.request = request
+        self.requests = requests
         self.cuts = cuts
         self.ack = b''
         self.handshake = None
@@ -350,7 +431,11 @@ class Client(threading.Thread):
             ctx = ssl.create_default_context(cafile=None if self.mode == 'distrust' else self.cafile)
             bare = self.host[1:-1] if self.host.startswith('[') and self.host.endswith(']') else self.host
             try:
-                tls = ctx.wrap_socket(s, server_hostname=bare)
+                if self.splitc is None:
+                    tls = ctx.wrap_socket(s, server_hostname=bare)
+                else:
+                    tls = BioTls(s, ctx, server_hostname=bare)
+                    tls.handshake()
             except ssl.SSLCertVerificationError as e:
                 self.handshake = 'SSLCertVerificationError:' + str(getattr(e, 'verify_message', ''))
                 return
@@ -359,16 +444,24 @@ class Client(threading.Thread):
                 return
             self.handshake = 'ok'
             s = tls
-            self.peer_der = tls.getpeercert(True)
-            self.peer_cert = tls.getpeercert()
+            sslobj = tls if self.splitc is None else tls.obj
+            self.peer_der = sslobj.getpeercert(True)
+            self.peer_cert = sslobj.getpeercert()
             try:
-                pos = 0
-                for c in list(self.cuts) + [len(self.request)]:
-                    if c > pos:
-                        s.sendall(self.request[pos:c])
-                        pos = c
-                        time.sleep(0.005)
-                self.response = _read_http(s)
+                for i, request in enumerate(self.requests):
+                    if self.splitc is not None:
+                        s.sendall(request, split=i in self.splitc)
+                    else:
+                        pos = 0
+                        for c in (list(self.cuts) if i == 0 else []) + [len(request)]:
+                            if c > pos:
+                                s.sendall(request[pos:c])
+                                pos = c
+                                time.sleep(0.005)
+                    r = _read_http(s)
+                    self.response += r
+                    if not r:
+                        break
             except (ssl.SSLError, OSError) as e:
                 self.error = type(e).__name__
         except (ssl.SSLError, OSError) as e:
@@ -515,6 +608,16 @@ class Patches:
             return orig_queue(conn, mv)
         self._set(TcpConnection, 'queue', queue)
 
+        orig_recv = TcpConnection.recv
+
+        def recv(conn, *a, **k):
+            try:
+                return orig_recv(conn, *a, **k)
+            except ssl.SSLWantReadError:
+                w.wantread[conn.tag] = w.wantread.get(conn.tag, 0) + 1      # an incomplete TLS record was pending
+                raise
+        self._set(TcpConnection, 'recv', recv)
+
         orig_orc = PS.HttpProxyPlugin.on_request_complete
 
         def on_request_complete(plugin):
@@ -572,10 +675,15 @@ def connect_bytes(case):
     return L('\r\n'.join(lines) + '\r\n\r\n')
 
 
-def inner_request(case):
+def inner_requests(case):
+    return [inner_request(case, i) for i in range(case.get('nreq', 1))]
+
+
+def inner_request(case, i=0):
     r = case['req']
     body = L(r.get('b', ''))
-    lines = ['%s %s HTTP/1.1' % (r['m'], r['path'])] + list(r['h'])
+    path = r['path'] if i == 0 else r['path'] + ('&' if '?' in r['path'] else '?') + 'n=%d' % i
+    lines = ['%s %s HTTP/1.1' % (r['m'], path)] + list(r['h'])
     if body:
         lines.append('Content-Length: %d' % len(body))
     return L('\r\n'.join(lines) + '\r\n\r\n') + body
@@ -594,6 +702,7 @@ class World:
         self.openssl_calls = 0
         self.origins = []
         self.logs = []
+        self.wantread = {}
         self.flags = None
 
     def make_flags(self):
@@ -619,7 +728,8 @@ class World:
         o = Origin(b, None if sit == 'garbage' else 'reset' if sit == 'reset' else self.p.leaf(sit, self.case['host']),
                    self.p.origin_key,
                    origin_response(self.case),
-                   extra_raw=bytes.fromhex(self.case.get('junk', '')))
+                   extra_raw=bytes.fromhex(self.case.get('junk', '')), nreq=self.case.get('nreq', 1),
+                   splits=self.case.get('splits'))
         self.origins.append(o)
         o.start()
         return a
@@ -663,10 +773,11 @@ def run_connect(w, case):
     n_before = len(w.origins)
     calls_before = w.openssl_calls
     logs_before = len(w.logs)
+    w.wantread = {}
     handler = HttpProtocolHandler(HttpClientConnection(c_proxy, ('127.0.0.1', 50000)), flags=w.flags)
     handler.initialize()
-    cl = Client(c_peer, connect_bytes(case), case['host'], w.p.ca_cert, inner_request(case), case.get('cuts', []),
-                case.get('client', 'verify'))
+    cl = Client(c_peer, connect_bytes(case), case['host'], w.p.ca_cert, inner_requests(case), case.get('cuts', []),
+                case.get('client', 'verify'), case.get('splitc'))
     cl.start()
     sel = selectors.DefaultSelector()
     deadline = time.time() + 50
@@ -744,6 +855,7 @@ def run_connect(w, case):
             leaf = {'error': repr(e)}
     return {
         'fs_before': fs_before, 'leaf': leaf, 'logs': w.logs[logs_before:], 'certdir': w.certdir,
+        'wantread': dict(w.wantread),
         'rec': snapshot, 'post': post, 'ended': ended, 'state': state, 'hung': hung,
         'openssl_calls': w.openssl_calls - calls_before,
         'client': {'ack': cl.ack, 'handshake': cl.handshake, 'cert': cl.peer_cert, 'der': cl.peer_der,
@@ -1221,6 +1333,21 @@ def parse_request(raw):
     return lines[0], hdrs, body
 
 
+def split_messages(raw):
+    """cut a byte stream into Content-Length framed messages (the tail, if any, is kept as a last element)"""
+    out = []
+    while raw:
+        head, sep, rest = raw.partition(b'\r\n\r\n')
+        if not sep:
+            out.append(raw)
+            break
+        m = re.search(rb'(?im)^content-length:\s*(\d+)\s*$', head)
+        n = int(m.group(1)) if m else 0
+        out.append(head + sep + rest[:n])
+        raw = rest[n:]
+    return out
+
+
 def same_request(sent, got):
     """C02 semantics for a follow-up request: same request line, same header fields (hop-by-hop
     proxy fields removed, a Via field naming the proxy allowed), same body"""
@@ -1269,8 +1396,9 @@ def oracle(case):
         return None
     obs = observe(case)
     p = pki()
-    request = inner_request(case)
-    response = origin_response(case)
+    requests = inner_requests(case)
+    request = b''.join(requests)
+    response = origin_response(case) * len(requests)
     opted_out = 'F' in case['plugins']
     undocumented = 'N' in case['plugins']        # an answer that is neither True nor False: not judged
     mode = case.get('client', 'verify')
@@ -1336,9 +1464,13 @@ def oracle(case):
             return 'presented-certificate-does-not-name-host'
         if c['der'] == origin_der:
             return 'tls-not-terminated'
-        r = same_request(request, og['received'])
-        if r:
-            return 'inner-request-' + r
+        got = split_messages(og['received'])
+        if len(got) != len(requests):
+            return 'inner-requests-%d-of-%d-reached-origin' % (len(got), len(requests))
+        for sent, g in zip(requests, got):
+            r = same_request(sent, g)
+            if r:
+                return 'inner-request-' + r
         if c['response'] != response:
             return 'response-not-intact'
         if n == 0 and o['openssl_calls'] != 3 and not o['fs_before']:
@@ -1370,7 +1502,7 @@ def e2e(host='example.org', sit='trusted', insecure=0, plugins=(), intercept=1, 
 
 RULE = ('e2e: one CONNECT (+ warm repeats) with REAL TLS on both sides through the real HttpProtocolHandler + '
         'HttpProxyPlugin: origin certificate situation x insecure switch x do_intercept answers x host kind x client '
-        'behaviour x cache state x payload/segmentation, compared effect by effect with Intercept.onConnect; layer '
+        'behaviour x cache state x payload/segmentation x TLS records split over two TCP segments (either direction, first and later requests), compared effect by effect with Intercept.onConnect; layer '
         'cases (no crypto): pki argv/ext-file/config bytes, cache path, generate_upstream_certificate over cache '
         'states and openssl outcomes, do_intercept chains (exhaustive to length 3/4), upstream context settings; '
         'distinct by canonical JSON; non-trivial = e2e case')
@@ -1386,6 +1518,9 @@ ASSUMPTIONS = [
     'a successful openssl invocation creates its -out file and nothing else changes the cache directory during a '
     'CONNECT (HttpProxyPlugin.lock)',
     'after a failed upstream wrap the detached socket reports fileno() == -1, which Threadless never registers',
+    'a TLS record that is not yet complete makes recv raise SSLWantReadError; the relay treats it as "nothing '
+    'happened, try again" (stutter step, theorem C11_record_fragment_stutter on Px.Relay); the split-record '
+    'scenarios check that on the real handler in both directions',
     'decrypted follow-up requests take the on_client_data pipeline path whose parse/rebuild is the subject of '
     'C02/C04; here only the routing decision (Relay kind http vs tunnel) is modelled and the oracle checks the '
     'end-to-end bytes',
@@ -1424,6 +1559,11 @@ def _corpus():
         e2e(host='[::1]', insecure=1), e2e(host='127.0.0.1', sit='selfsigned'),
         e2e(sit='garbage'), e2e(sit='reset'), e2e(sit='reset', insecure=1), e2e(sit='selfsigned', junk='160303000a0102030405060708090a'), e2e(sit='wrongname', junk='00' * 64),
         e2e(client='distrust'), e2e(client='gone'), e2e(client='hangup'),
+        # a TLS record reaching the proxy in two TCP segments with a pause (SSLWantReadError = try again later):
+        # first request, a later request, the response direction, both, and inside an opaque tunnel
+        e2e(splitc=[0]), e2e(nreq=2, splitc=[1]), e2e(nreq=3, splitc=[0, 2], splits=[1], resp=20000),
+        e2e(nreq=2, splits=[0, 1], resp=70000), e2e(nreq=2, splitc=[1], splits=[0], plugins=['F']),
+        e2e(nreq=2, splitc=[0, 1], sit='selfsigned', insecure=1), e2e(nreq=2),
         e2e(openssl='/bin/false'), e2e(emptykey=1), e2e(hosthdr='other.example:443'), e2e(hosthdr='other.example:443', plugins=['F']),
         e2e(req={'m': 'POST', 'path': '/submit', 'h': ['Host: example.org', 'Proxy-Authorization: Basic eDp5',
                                                       'Content-Type: text/plain'], 'b': 'x' * 3000},
@@ -1567,6 +1707,8 @@ def _generate(rng, tier):
         yield e2e(sit='garbage', insecure=1)
         yield e2e(host='127.0.0.1', insecure=1, sit='selfsigned')
         yield e2e(host='10.1.2.3', sit='wrongname')
+        for host in ('example.org', '127.0.0.1', '[::1]'):
+            yield e2e(host=host, nreq=2, splitc=[rng.randrange(2)], splits=[rng.randrange(2)], resp=rng.choice([3, 40000]))
         n = 10
     else:
         hosts = NAMES[:3] + ['127.0.0.1', '[::1]']
@@ -1581,6 +1723,16 @@ def _generate(rng, tier):
                 yield e2e(sit=sit, insecure=insecure, intercept=0, host=rng.choice(hosts))
                 yield e2e(sit=sit, insecure=insecure, openssl='/bin/false')
                 yield e2e(sit=sit, insecure=insecure, hosthdr='other.example:443', host=rng.choice(NAMES))
+        for host in hosts:
+            for answers in ([], ['F']):
+                for nreq, splitc, splits in ((1, [0], None), (2, [1], None), (2, None, [0]), (2, None, [1]),
+                                             (3, [0, 1, 2], [0, 1, 2]), (2, [0], [1])):
+                    c = e2e(host=host, plugins=answers, nreq=nreq, resp=rng.choice([1, 500, 40000]))
+                    if splitc is not None:
+                        c['splitc'] = splitc
+                    if splits is not None:
+                        c['splits'] = splits
+                    yield c
         n = 600
     for _ in range(n):
         host = rng.choice(NAMES + [_rand_name(rng), _rand_name(rng)] + (['127.0.0.1', '[::1]', '192.0.2.7'] if big else []))
@@ -1593,6 +1745,12 @@ def _generate(rng, tier):
             c['hosthdr'] = rng.choice(['other.example:443', 'other.example', host])
         if c['sit'] != 'trusted' and rng.random() < 0.3:
             c['junk'] = bytes(rng.randrange(256) for _ in range(rng.choice([1, 5, 100]))).hex()
+        if rng.random() < 0.35:
+            c['nreq'] = rng.choice([1, 2, 2, 3])
+            if rng.random() < 0.8:
+                c['splitc'] = sorted(rng.sample(range(c['nreq']), rng.randrange(0, c['nreq'] + 1)))
+            if rng.random() < 0.5:
+                c['splits'] = sorted(rng.sample(range(c['nreq']), rng.randrange(0, c['nreq'] + 1)))
         yield c
 
 
@@ -1606,6 +1764,8 @@ def neighbours(case):
         yield dict(case, plugins=answers)
     yield dict(case, hosthdr='other.example:443')
     yield dict(case, warm=1)
+    yield dict(case, nreq=2, splitc=[1])
+    yield dict(case, nreq=2, splits=[0])
 
 
 def search(rng):
@@ -1620,7 +1780,9 @@ def describe(case):
     opt = 'off' if not case['intercept'] else 'optout' if 'F' in case['plugins'] else \
         'N-answer' if 'N' in case['plugins'] else 'intercept'
     return ['e2e sit=%s insecure=%d' % (case['sit'], case['insecure']), 'e2e host=' + host, 'e2e mode=' + opt,
-            'e2e warm=%d' % case.get('warm', 0), 'e2e client=' + case.get('client', 'verify')]
+            'e2e warm=%d' % case.get('warm', 0), 'e2e client=' + case.get('client', 'verify'),
+            'e2e split-record c=%d s=%d' % (bool(case.get('splitc')), bool(case.get('splits'))),
+            'e2e nreq=%d' % case.get('nreq', 1)]
 
 
 def nontrivial(case):
